@@ -87,6 +87,34 @@ func c07(r *core.Report) {
 	r.Rule("C07-SINGLE-CHANNEL", "p2pkeswarm's channel table inserts only on the miss edge of a lookup made under the same write lock", 1)
 	ruleCheckThenInsert(r, "C07-SINGLE-CHANNEL")
 
+	// ---- C07-HELLO-FLOOR (after seed C07-s7): Channel.remoteTimestamp is the floor below which a peer's InitHello is
+	// refused as a replay. It may only ever be raised to the hello time of a session that was established — a value
+	// the peer's next genuine hello is guaranteed to exceed — never to a reading of the local clock: a restarted
+	// peer whose hello was created before the old handshake's last message landed would be refused for ever.
+	r.Rule("C07-HELLO-FLOOR", "Channel.remoteTimestamp is only ever set to the InitHello time of the established session, never from the local clock", 1)
+	{
+		rtF := needField(r, "p/p2pke", "Channel", "remoteTimestamp")
+		iht := needFn(r, "p/p2pke", "Session.InitHelloTime")
+		if rtF != nil && iht != nil {
+			for _, fn := range p.ModFuncs {
+				for _, st := range core.StoresToField(fn, rtF) {
+					r.Analysed(fn)
+					ok := false
+					for _, rv := range core.ReachingValues(core.Through(st.Val)) {
+						if c, isC := core.Through(rv).(*ssa.Call); isC && core.StaticCallee(c.Common()) == iht {
+							ok = true
+						} else {
+							ok = false
+							break
+						}
+					}
+					r.Check(ok, "C07-HELLO-FLOOR", core.FnName(fn)+" store remoteTimestamp", p.Pos(st.Pos()), "the stored floor is Session.InitHelloTime() of the session being promoted",
+						"the InitHello floor is set from something other than the established session's hello time (e.g. the local clock): a genuine InitHello created before that instant — a peer that restarted while the old handshake's last message was in flight — is refused as 'too early' on every retransmission, and its Send never completes")
+				}
+			}
+		}
+	}
+
 	// ---- C07-KEEPALIVE
 	// ---- C07-GIVE-UP-IS-LOCAL: the channel for a remote address is shared by every caller waiting on that
 	// address. A caller whose own context ended may only return: removing the channel from the table or closing
